@@ -298,13 +298,14 @@ func scenario(cfg hlib.ChanCfg, kinds []string, bound int) *explore.Scenario {
 			if ninact == 1 {
 				// the inactive error is identical to one issued Close argument
 				ok := false
+				// ("carrying the error of the Close call": identity, or an error that wraps it)
 				for _, c := range o.closes {
-					if c.arg == inactErr {
+					if c.arg == inactErr || (c.arg != nil && errors.Is(inactErr, c.arg)) {
 						ok = true
 					}
 				}
 				for _, e := range o.excToTail {
-					if e == inactErr {
+					if e == inactErr || (e != nil && errors.Is(inactErr, e)) {
 						ok = true
 					}
 				}
@@ -328,7 +329,7 @@ func scenario(cfg hlib.ChanCfg, kinds []string, bound int) *explore.Scenario {
 				if c.activeAft {
 					add("active-after-close-returned", "IsActive() was still true after the Close call by "+c.who+" had returned;"+ctxs)
 				}
-				if ninact == 1 && c.arg == inactErr && c.ctxErrAft == nil {
+				if ninact == 1 && (c.arg == inactErr || (c.arg != nil && errors.Is(inactErr, c.arg))) && c.ctxErrAft == nil {
 					add("context-not-cancelled", "the Close call that took effect ("+c.who+") returned but the channel context was not cancelled;"+ctxs)
 				}
 			}
